@@ -1,6 +1,817 @@
-//! C02 — not implemented yet.
-use mc_core::Ctx;
+//! C02 — failed, rejected and aborted transactions change nothing but fees.
+//!
+//! Fault enumeration. A *subject* is a (state, transaction) pair: the state is reached from the root
+//! world by a history of menu transactions (depth 0/1/2), the transaction is one of the standard menu
+//! or one of the fee-locking variants below. For every subject:
+//!   1. the un-faulted run (4 menu transactions fail intrinsically: they are checked as they are);
+//!   2. the abort variant (`abort_when_loan_repaid`);
+//!   3. `execute_manifest_with_injected_error(manifest, proofs, k)` for every k = 1..=N (+ a window past
+//!      N that must reproduce the un-faulted receipt), N = number of positions at which the cost hook
+//!      fires (full sweep), or the strided subset {k ≤ edge} ∪ {k > N − edge} ∪ {k ≡ 0 mod stride}.
+//!
+//! Oracle (derived from the property statement, not from `Track::revert_non_force_write_changes`):
+//!   * Reject / Abort: the database after the run is equal (raw, whole) to the parent database.
+//!   * Commit(Failure): the raw whole-database diff parent→child is a subset of
+//!       { balance field of an XRD vault owned by a component on which the *manifest* calls a
+//!         lock-fee method; ConsensusManager.ValidatorRewards field; balance of the rewards vault named
+//!         by that field in the parent; TransactionTracker field; whole-partition deletes of the
+//!         tracker (ring rotation); tracker entries of this transaction's own intent hashes }.
+//!     Fee vaults never increase, decrease by exactly the receipt's `fee_source` amount, a vault that
+//!     was only locked contingently is unchanged; rewards vault increases by to_proposer +
+//!     to_validator_set; the rewards bookkeeping changes only proposer entries, by to_proposer in
+//!     total; events ⊆ {LockFeeEvent, PayFeeEvent on fee vaults; DepositEvent on the rewards vault;
+//!     BurnFungibleResourceEvent on XRD}. Then the resource invariants (independent scan: supply = Σ
+//!     vaults, no negative vault, NF index) on every failed commit, and the engine's own
+//!     kernel/system/role-assignment/royalty checkers on one representative (minimal k) per distinct
+//!     diff shape of every subject.
+//!   * A faulted run that still commits successfully (the injected error was absorbed) is outside the
+//!     statement: counted as informational.
+use crate::common::*;
+use mc_core::{par_map, par_range, Ctx, Level, Local};
+use mc_ledger::menu::*;
+use mc_ledger::*;
+use radix_engine::blueprints::consensus_manager::ConsensusManagerField;
+use radix_engine::blueprints::resource::FungibleVaultField;
+use radix_substate_store_interface::db_key_mapper::{DatabaseKeyMapper, SpreadPrefixKeyMapper};
+use serde_json::{json, Map, Value};
+use std::collections::{BTreeMap, BTreeSet};
+use std::sync::atomic::{AtomicBool, AtomicU64, Ordering};
+use std::sync::Mutex;
 
-pub fn run(_ctx: Ctx) -> ! {
-    mc_core::machinery_error("C02: not implemented")
+/// Fee-locking variants on top of the standard menu (the menu locks from the faucet except for the two
+/// contingent entries): they exercise a force-written vault that is modified again afterwards, two locks
+/// on one vault, the combined lock+withdraw method and two different payers.
+#[derive(Clone, Copy, Debug, PartialEq, Eq, PartialOrd, Ord, Hash)]
+pub enum Extra {
+    LockAThenSpendXrd,
+    LockTwiceA,
+    LockFeeAndWithdrawA,
+    FaucetAndALock,
+}
+pub const EXTRAS: &[Extra] = &[Extra::LockAThenSpendXrd, Extra::LockTwiceA, Extra::LockFeeAndWithdrawA, Extra::FaucetAndALock];
+
+#[derive(Clone, Copy, Debug, PartialEq, Eq, PartialOrd, Ord, Hash)]
+pub enum Op {
+    Menu(Tx),
+    Extra(Extra),
+}
+
+impl Op {
+    fn name(&self) -> String {
+        match self {
+            Op::Menu(t) => format!("{t:?}"),
+            Op::Extra(e) => format!("{e:?}"),
+        }
+    }
+    fn parse(s: &str) -> Option<Op> {
+        all_ops().into_iter().chain(std::iter::once(Op::Menu(Tx::NextRound))).find(|o| o.name() == s)
+    }
+}
+
+/// transactions that are fault-injected (NextRound is a system transaction: costing is disabled for it, so
+/// there is no cost hook to fail and the public injection entry point does not accept it; it is still
+/// used to reach states)
+fn all_ops() -> Vec<Op> {
+    STD_MENU.iter().filter(|t| **t != Tx::NextRound).map(|t| Op::Menu(*t)).chain(EXTRAS.iter().map(|e| Op::Extra(*e))).collect()
+}
+
+fn build_op(sim: &mut Sim, w: &World, x: &Extras, op: Op) -> Option<(TransactionManifestV1, Vec<NonFungibleGlobalId>)> {
+    let a = w.a.addr;
+    let b = w.b.addr;
+    let sa = vec![w.a.sig.clone()];
+    match op {
+        Op::Menu(t) => match build_tx(sim, w, x, t) {
+            Built::Manifest(m, p) => Some((m, p)),
+            Built::Round => None,
+        },
+        Op::Extra(Extra::LockAThenSpendXrd) => {
+            Some((ManifestBuilder::new().lock_fee(a, dec!(10)).withdraw_from_account(a, XRD, dec!(3)).try_deposit_entire_worktop_or_abort(b, None).build(), sa))
+        }
+        Op::Extra(Extra::LockTwiceA) => Some((
+            ManifestBuilder::new().lock_fee(a, dec!(5)).lock_fee(a, dec!(5)).withdraw_from_account(a, w.f18, dec!(1)).try_deposit_entire_worktop_or_abort(b, None).build(),
+            sa,
+        )),
+        Op::Extra(Extra::LockFeeAndWithdrawA) => {
+            Some((ManifestBuilder::new().lock_fee_and_withdraw(a, dec!(10), w.f18, dec!(1)).try_deposit_entire_worktop_or_abort(b, None).build(), sa))
+        }
+        Op::Extra(Extra::FaucetAndALock) => Some((
+            ManifestBuilder::new().lock_fee_from_faucet().lock_fee(a, dec!(1)).withdraw_from_account(a, w.f18, dec!(1)).try_deposit_entire_worktop_or_abort(b, None).build(),
+            sa,
+        )),
+    }
+}
+
+/// Components on which the manifest calls a fee-locking method: (component, contingent?).
+fn lockers_of(m: &TransactionManifestV1) -> Vec<(ComponentAddress, bool)> {
+    let mut out = vec![];
+    for i in &m.instructions {
+        if let InstructionV1::CallMethod(cm) = i {
+            let contingent = match cm.method_name.as_str() {
+                "lock_fee" | "lock_fee_and_withdraw" | "lock_fee_and_withdraw_non_fungibles" => false,
+                "lock_contingent_fee" => true,
+                _ => continue,
+            };
+            if let ManifestGlobalAddress::Static(g) = &cm.address {
+                if let Ok(c) = ComponentAddress::try_from(*g) {
+                    out.push((c, contingent));
+                }
+            }
+        }
+    }
+    out
+}
+
+struct State {
+    history: Vec<Op>,
+    depth: usize,
+    snap: Snap,
+    db: Db,
+    rewards_vault: NodeId,
+}
+
+struct Subject {
+    state: usize,
+    op: Op,
+    manifest: TransactionManifestV1,
+    proofs: Vec<NonFungibleGlobalId>,
+    /// XRD vaults of the components the manifest locks fees on
+    fee_vaults: BTreeSet<NodeId>,
+    /// subset locked only contingently
+    contingent_only: BTreeSet<NodeId>,
+    base_digest: Hash,
+    base_class: String,
+    /// last k whose receipt differs from the un-faulted one (= number of cost-hook positions)
+    n: u64,
+    /// lower bound for n: execution-cost applications of the un-faulted run (debug breakdown)
+    n_lower: u64,
+}
+
+#[derive(Clone, Copy, Debug, PartialEq, Eq)]
+enum Mode {
+    Plain,
+    Abort,
+    Fault(u64),
+}
+
+fn run_mode(sim: &mut Sim, sj: &Subject, mode: Mode) -> Result<TransactionReceipt, String> {
+    match mode {
+        Mode::Plain => exec(sim, sj.manifest.clone(), sj.proofs.clone()),
+        Mode::Abort => {
+            let cfg = ExecutionConfig::for_test_transaction().update_system_overrides(|o| o.set_abort_when_loan_repaid());
+            exec_cfg(sim, sj.manifest.clone(), sj.proofs.clone(), cfg)
+        }
+        Mode::Fault(k) => mc_core::catch(|| sim.execute_manifest_with_injected_error(sj.manifest.clone(), sj.proofs.clone(), k)),
+    }
+}
+
+struct Verdict {
+    class: String,
+    /// for failed commits: canonical description of the set of changed substates (diff shape)
+    shape: Option<String>,
+    digest: Hash,
+}
+
+fn field_key(f: u8) -> DbSortKey {
+    SpreadPrefixKeyMapper::to_db_sort_key(&SubstateKey::Field(f))
+}
+
+fn short_class(r: &TransactionReceipt) -> String {
+    match &r.result {
+        TransactionResult::Commit(c) => match &c.outcome {
+            TransactionOutcome::Success(_) => "commit-success".into(),
+            TransactionOutcome::Failure(e) => format!("commit-failure:{}", variant_path(&format!("{e:?}"), 2)),
+        },
+        TransactionResult::Reject(rj) => format!("reject:{}", variant_path(&format!("{:?}", rj.reason), 1)),
+        TransactionResult::Abort(a) => format!("abort:{}", variant_path(&format!("{:?}", a.reason), 1)),
+    }
+}
+
+/// The oracle. `after` is the simulator's database after the run.
+fn judge(st: &State, sj: &Subject, mode: Mode, receipt: &TransactionReceipt, after: &Db, full_invariants: bool) -> Result<Verdict, (String, String)> {
+    let digest = receipt_digest(receipt);
+    let cls = short_class(receipt);
+    match &receipt.result {
+        TransactionResult::Reject(_) | TransactionResult::Abort(_) => {
+            if after != &st.db {
+                let d = db_diff(&st.db, after);
+                let kind = if matches!(receipt.result, TransactionResult::Reject(_)) { "rejected" } else { "aborted" };
+                return Err((
+                    format!("{kind}-changed-database"),
+                    format!("{kind} transaction changed {} substates, first: {}", d.len(), d.first().map(|c| c.describe()).unwrap_or_default()),
+                ));
+            }
+            Ok(Verdict { class: cls, shape: None, digest })
+        }
+        TransactionResult::Commit(c) => {
+            if matches!(c.outcome, TransactionOutcome::Success(_)) {
+                return Ok(Verdict { class: cls, shape: None, digest });
+            }
+            let _ = mode;
+            let mut shape = String::new();
+            let diff = db_diff(&st.db, after);
+            let bal = field_key(FungibleVaultField::Balance.field_index());
+            let rew = field_key(ConsensusManagerField::ValidatorRewards.field_index());
+            let mut paid: BTreeMap<NodeId, Decimal> = BTreeMap::new();
+            let mut rewards_vault_delta = Decimal::ZERO;
+            let mut rewards_change: Option<(&Vec<u8>, &Vec<u8>)> = None;
+            let mut tracker_deleted_partitions: BTreeSet<PartitionNumber> = BTreeSet::new();
+            for ch in &diff {
+                let et = ch.node.entity_type();
+                let outside = |what: &str| -> (String, String) {
+                    (
+                        format!("failed-commit:changed-outside-fee-set:{}:{et:?}:p{}", what, ch.partition.0),
+                        format!("a failed commit changed a substate outside the fee-related set: {}", ch.describe()),
+                    )
+                };
+                if sj.fee_vaults.contains(&ch.node) {
+                    if ch.partition != MAIN_BASE_PARTITION || ch.sort_key != bal {
+                        return Err(outside("fee-vault-non-balance"));
+                    }
+                    let (Some(o), Some(n)) = (&ch.old, &ch.new) else { return Err(outside("fee-vault-balance-created-or-deleted")) };
+                    let o = decode_vault_balance(o).map_err(|e| ("decode".to_string(), e))?;
+                    let n = decode_vault_balance(n).map_err(|e| ("decode".to_string(), e))?;
+                    if n > o {
+                        return Err((
+                            "failed-commit:fee-vault-increased".into(),
+                            format!("fee-locking vault {} went from {o} to {n} in a failed commit", mc_core::hex(&ch.node.0)),
+                        ));
+                    }
+                    paid.insert(ch.node, o.checked_sub(n).unwrap());
+                    shape.push_str("V;");
+                } else if ch.node == *CONSENSUS_MANAGER.as_node_id() {
+                    if ch.partition != MAIN_BASE_PARTITION || ch.sort_key != rew {
+                        return Err(outside("consensus-manager"));
+                    }
+                    let (Some(o), Some(n)) = (&ch.old, &ch.new) else { return Err(outside("validator-rewards-created-or-deleted")) };
+                    rewards_change = Some((o, n));
+                    shape.push_str("R;");
+                } else if ch.node == st.rewards_vault {
+                    if ch.partition != MAIN_BASE_PARTITION || ch.sort_key != bal {
+                        return Err(outside("rewards-vault-non-balance"));
+                    }
+                    let (Some(o), Some(n)) = (&ch.old, &ch.new) else { return Err(outside("rewards-vault-balance-created-or-deleted")) };
+                    let o = decode_vault_balance(o).map_err(|e| ("decode".to_string(), e))?;
+                    let n = decode_vault_balance(n).map_err(|e| ("decode".to_string(), e))?;
+                    rewards_vault_delta = n.checked_sub(o).unwrap();
+                    shape.push_str("RV;");
+                } else if ch.node == *TRANSACTION_TRACKER.as_node_id() {
+                    if ch.partition == MAIN_BASE_PARTITION {
+                        if ch.sort_key != field_key(0) || ch.old.is_none() || ch.new.is_none() {
+                            return Err(outside("tracker-main"));
+                        }
+                        shape.push_str("T;");
+                    } else if ch.partition.0 > MAIN_BASE_PARTITION.0 {
+                        // test transactions carry no intent-hash nullification: no entry of their own may appear;
+                        // only the rotation of the ring (whole-partition delete) is fee-unrelated bookkeeping of
+                        // the replay-protection record
+                        if ch.new.is_some() {
+                            return Err(outside("tracker-entry-written"));
+                        }
+                        tracker_deleted_partitions.insert(ch.partition);
+                    } else {
+                        return Err(outside("tracker-module"));
+                    }
+                } else {
+                    let kind = match (&ch.old, &ch.new) {
+                        (None, Some(_)) => "created",
+                        (Some(_), None) => "deleted",
+                        _ => "updated",
+                    };
+                    return Err(outside(kind));
+                }
+            }
+            for p in &tracker_deleted_partitions {
+                let pk = SpreadPrefixKeyMapper::to_db_partition_key(TRANSACTION_TRACKER.as_node_id(), *p);
+                if radix_substate_store_interface::interface::SubstateDatabase::list_raw_values_from_db_key(after, &pk, None).next().is_some() {
+                    return Err((
+                        "failed-commit:tracker-partial-delete".into(),
+                        format!("tracker partition {} lost entries without being discarded as a whole", p.0),
+                    ));
+                }
+                shape.push_str("TD;");
+            }
+            // receipt cross-checks
+            for (v, amt) in &c.fee_source.paying_vaults {
+                if !sj.fee_vaults.contains(v) {
+                    return Err((
+                        "failed-commit:payer-not-a-locker".into(),
+                        format!("fee_source names vault {} which no lock-fee call of the manifest targets", mc_core::hex(&v.0)),
+                    ));
+                }
+                let p = paid.get(v).copied().unwrap_or(Decimal::ZERO);
+                if p != *amt {
+                    return Err((
+                        "failed-commit:fee-source-mismatch".into(),
+                        format!("vault {} decreased by {p} but fee_source says {amt}", mc_core::hex(&v.0)),
+                    ));
+                }
+            }
+            for (v, p) in &paid {
+                if !p.is_zero() && !c.fee_source.paying_vaults.contains_key(v) {
+                    return Err(("failed-commit:fee-source-mismatch".into(), format!("vault {} decreased by {p} but is not in fee_source", mc_core::hex(&v.0))));
+                }
+                if !p.is_zero() && sj.contingent_only.contains(v) {
+                    return Err((
+                        "failed-commit:contingent-fee-taken".into(),
+                        format!("contingently locked vault {} paid {p} in a failed commit", mc_core::hex(&v.0)),
+                    ));
+                }
+            }
+            let to_validators = c.fee_destination.to_proposer.checked_add(c.fee_destination.to_validator_set).unwrap();
+            if rewards_vault_delta != to_validators {
+                return Err((
+                    "failed-commit:rewards-vault-delta".into(),
+                    format!("rewards vault changed by {rewards_vault_delta}, fee_destination proposer+validator set = {to_validators}"),
+                ));
+            }
+            if rewards_vault_delta.is_negative() {
+                return Err(("failed-commit:rewards-vault-decreased".into(), format!("rewards vault changed by {rewards_vault_delta}")));
+            }
+            let total_paid = paid.values().fold(Decimal::ZERO, |a, b| a.checked_add(*b).unwrap());
+            if total_paid < rewards_vault_delta {
+                return Err(("failed-commit:rewards-exceed-fees".into(), format!("fee vaults paid {total_paid}, rewards vault received {rewards_vault_delta}")));
+            }
+            if let Some((o, n)) = rewards_change {
+                let o = decode_rewards(o).map_err(|e| ("decode".to_string(), e))?;
+                let n = decode_rewards(n).map_err(|e| ("decode".to_string(), e))?;
+                if o.rewards_vault != n.rewards_vault {
+                    return Err(("failed-commit:rewards-vault-replaced".into(), "the rewards vault reference changed".into()));
+                }
+                let mut sum = Decimal::ZERO;
+                let keys: BTreeSet<_> = o.proposer_rewards.keys().chain(n.proposer_rewards.keys()).copied().collect();
+                for k in keys {
+                    let a = o.proposer_rewards.get(&k).copied().unwrap_or(Decimal::ZERO);
+                    let b = n.proposer_rewards.get(&k).copied().unwrap_or(Decimal::ZERO);
+                    if b < a {
+                        return Err(("failed-commit:proposer-reward-decreased".into(), format!("proposer {k} reward {a} -> {b}")));
+                    }
+                    sum = sum.checked_add(b.checked_sub(a).unwrap()).unwrap();
+                }
+                if sum != c.fee_destination.to_proposer {
+                    return Err(("failed-commit:proposer-reward-delta".into(), format!("proposer rewards grew by {sum}, to_proposer = {}", c.fee_destination.to_proposer)));
+                }
+            }
+            // events
+            for (id, _data) in &c.application_events {
+                let ok = match &id.0 {
+                    Emitter::Method(node, ModuleId::Main) => match id.1.as_str() {
+                        "LockFeeEvent" | "PayFeeEvent" => sj.fee_vaults.contains(node),
+                        "DepositEvent" => *node == st.rewards_vault,
+                        "BurnFungibleResourceEvent" => node == XRD.as_node_id(),
+                        _ => false,
+                    },
+                    _ => false,
+                };
+                if !ok {
+                    return Err((
+                        format!("failed-commit:non-fee-event:{}", id.1),
+                        format!("a failed commit emitted {:?}", id),
+                    ));
+                }
+            }
+            // the receipt must not announce new entities either
+            let s = &c.state_update_summary;
+            if !s.new_packages.is_empty() || !s.new_components.is_empty() || !s.new_resources.is_empty() || !s.new_vaults.is_empty() {
+                return Err(("failed-commit:summary-new-entities".into(), format!("state_update_summary of a failed commit lists new entities: {s:?}")));
+            }
+            // ledger invariants afterwards
+            if full_invariants {
+                let t = scan_totals(after).map_err(|e| ("failed-commit:scan-failed".to_string(), e))?;
+                totals_invariant(&t).map_err(|e| ("failed-commit:resource-invariant".to_string(), e))?;
+            }
+            Ok(Verdict { class: cls, shape: Some(shape), digest })
+        }
+    }
+}
+
+fn case_json(st: &State, sj: &Subject, mode: Mode) -> Value {
+    json!({
+        "history": st.history.iter().map(|o| o.name()).collect::<Vec<_>>(),
+        "op": sj.op.name(),
+        "mode": match mode { Mode::Plain => "plain".to_string(), Mode::Abort => "abort".to_string(), Mode::Fault(_) => "fault".to_string() },
+        "k": match mode { Mode::Fault(k) => k, _ => 0 },
+    })
+}
+
+/// one execution + oracle; returns the verdict (None when the run panicked, which is recorded)
+fn run_case(st: &State, sj: &Subject, mode: Mode, l: &mut Local, full_invariants: bool) -> Option<Verdict> {
+    l.eval();
+    with_sim(&st.snap, |sim| {
+        let r = run_mode(sim, sj, mode);
+        match r {
+            Err(p) => {
+                // "whatever the point at which execution failed": the engine must produce a receipt
+                l.violation(
+                    format!("panic:{}", mc_core::last_panic_location()),
+                    format!("{} {:?} panicked instead of producing a receipt: {}", sj.op.name(), mode, mc_core::truncate(&p, 300)),
+                    case_json(st, sj, mode),
+                );
+                None
+            }
+            Ok(receipt) => match judge(st, sj, mode, &receipt, sim.substate_db(), full_invariants) {
+                Ok(v) => Some(v),
+                Err((key, what)) => {
+                    l.violation(key, format!("{} [{}] {:?}: {what} (receipt: {})", sj.op.name(), st.history.iter().map(|o| o.name()).collect::<Vec<_>>().join(","), mode, short_class(&receipt)), case_json(st, sj, mode));
+                    None
+                }
+            },
+        }
+    })
+}
+
+fn semantic_fp(sim: &mut Sim, w: &World, x: &Extras) -> Vec<u8> {
+    let comps = [w.a.addr, w.b.addr, x.pool, x.validator];
+    let res = [w.f18, w.f2, w.f0, w.nf, w.rc, x.pool_unit, x.stake_unit, x.claim_nft];
+    let mut fp = balances_fp(sim, &comps, &res);
+    for c in [w.a.addr, w.b.addr, x.validator] {
+        let b = sim.get_component_balance(c, XRD);
+        fp.extend(format!("x{};", b.checked_floor().unwrap()).into_bytes());
+    }
+    let cm = sim.get_consensus_manager_state();
+    fp.extend(format!("e{}r{};", cm.epoch.number(), cm.round.number()).into_bytes());
+    let nres = scan_totals(sim.substate_db()).map(|t| t.len()).unwrap_or(0);
+    fp.extend(format!("n{nres};").into_bytes());
+    if let Some(v) = sim.get_component_vaults(w.b.addr, w.rc).first() {
+        let frozen: Option<radix_engine::blueprints::resource::FungibleVaultFreezeStatusFieldPayload> = radix_engine::system::system_db_reader::SystemDatabaseReader::new(sim.substate_db())
+            .read_typed_object_field(v, ModuleId::Main, FungibleVaultField::FreezeStatus.field_index())
+            .ok();
+        fp.extend(format!("f{frozen:?};").into_bytes());
+    }
+    fp
+}
+
+fn make_state(sim: &Sim, history: Vec<Op>) -> State {
+    let db = sim.substate_db().clone();
+    let rewards_vault = read_rewards(&db).unwrap_or_else(|e| mc_core::machinery_error(&format!("C02: {e}"))).rewards_vault.0 .0;
+    State { depth: history.len(), history, snap: sim.create_snapshot(), db, rewards_vault }
+}
+
+/// apply a state-producing op (any menu entry incl. NextRound); Some(receipt) if executed without panic
+fn apply_op(sim: &mut Sim, w: &World, x: &Extras, op: Op) -> Option<TransactionReceipt> {
+    match op {
+        Op::Menu(t) => run_tx(sim, w, x, t).ok(),
+        Op::Extra(_) => {
+            let (m, p) = build_op(sim, w, x, op)?;
+            exec(sim, m, p).ok()
+        }
+    }
+}
+
+fn expand_states(ctx: &Ctx, root: &Root, parents: &[State], seen: &mut BTreeSet<Vec<u8>>) -> Vec<State> {
+    let ops: Vec<Op> = STD_MENU.iter().map(|t| Op::Menu(*t)).collect();
+    let pairs: Vec<(usize, Op)> = (0..parents.len()).flat_map(|i| ops.iter().map(move |o| (i, *o))).collect();
+    let results = par_map(ctx.threads, &pairs, |(i, op)| {
+        let p = &parents[*i];
+        let mut sim = sim_from(&p.snap);
+        let r = apply_op(&mut sim, &root.w, &root.x, *op)?;
+        // only successful commits produce a new state: a failed commit differs from its parent by fee
+        // balances only (that is what this check establishes for it), a reject/abort not at all
+        if !is_success(&r) {
+            return None;
+        }
+        let fp = semantic_fp(&mut sim, &root.w, &root.x);
+        let mut h = p.history.clone();
+        h.push(*op);
+        Some((fp, make_state(&sim, h)))
+    });
+    let mut out = vec![];
+    for r in results.into_iter().flatten() {
+        if seen.insert(r.0) {
+            out.push(r.1);
+        }
+    }
+    out
+}
+
+fn prepare_subject(root: &Root, states: &[State], si: usize, op: Op) -> Result<Option<Subject>, String> {
+    let st = &states[si];
+    let mut sim = sim_from(&st.snap);
+    let Some((manifest, proofs)) = build_op(&mut sim, &root.w, &root.x, op) else { return Ok(None) };
+    let lockers = lockers_of(&manifest);
+    let mut fee_vaults = BTreeSet::new();
+    let mut non_contingent = BTreeSet::new();
+    for (c, contingent) in &lockers {
+        for v in xrd_vaults_of(&mut sim, *c) {
+            fee_vaults.insert(v);
+            if !contingent {
+                non_contingent.insert(v);
+            }
+        }
+    }
+    let contingent_only: BTreeSet<NodeId> = fee_vaults.difference(&non_contingent).copied().collect();
+    let mut sj = Subject { state: si, op, manifest, proofs, fee_vaults, contingent_only, base_digest: Hash([0u8; 32]), base_class: String::new(), n: 0, n_lower: 0 };
+    // un-faulted receipt
+    let base = with_sim(&st.snap, |sim| run_mode(sim, &sj, Mode::Plain)).map_err(|p| format!("un-faulted {} panicked: {p}", op.name()))?;
+    sj.base_digest = receipt_digest(&base);
+    sj.base_class = short_class(&base);
+    // lower bound for the number of hook positions: execution-cost applications after boot
+    let dbg = with_sim(&st.snap, |sim| exec_cfg(sim, sj.manifest.clone(), sj.proofs.clone(), ExecutionConfig::for_debug_transaction())).map_err(|p| format!("debug run panicked: {p}"))?;
+    if let Some(d) = &dbg.debug_information {
+        sj.n_lower = d
+            .detailed_execution_cost_breakdown
+            .iter()
+            .filter(|e| match &e.item {
+                radix_engine::system::system_modules::costing::ExecutionCostBreakdownItem::Execution { simple_name, .. } => {
+                    !["VerifyTxSignatures", "ValidateTxPayload", "CheckReference", "CheckIntentValidity", "CheckTimestamp"].iter().any(|p| simple_name.starts_with(p))
+                }
+                _ => false,
+            })
+            .count() as u64;
+    }
+    // N: the injection point k is "effective" iff the receipt differs from the un-faulted one. Every k up to the
+    // number of hook calls injects an error (the first k-1 calls are those of the un-faulted run, by
+    // determinism), every larger k injects nothing. Find the boundary by doubling + bisection; the sweep then
+    // re-checks a window past N and counts effective-looking gaps below N.
+    let differs = |k: u64| -> Result<bool, String> {
+        let r = with_sim(&st.snap, |sim| run_mode(sim, &sj, Mode::Fault(k)));
+        match r {
+            Ok(r) => Ok(receipt_digest(&r) != sj.base_digest),
+            Err(_) => Ok(true), // a panic is certainly not the un-faulted receipt; reported by the sweep
+        }
+    };
+    let mut lo = 0u64; // differs(lo) (or 0)
+    let mut hi = 1024u64;
+    loop {
+        if !differs(hi)? {
+            break;
+        }
+        lo = hi;
+        hi *= 2;
+        if hi > (1 << 22) {
+            return Err(format!("{}: no k up to {hi} reproduces the un-faulted receipt", op.name()));
+        }
+    }
+    while hi - lo > 1 {
+        let mid = (lo + hi) / 2;
+        if differs(mid)? {
+            lo = mid;
+        } else {
+            hi = mid;
+        }
+    }
+    sj.n = lo;
+    if sj.n < sj.n_lower {
+        return Err(format!("{}: boundary {} below the number of execution-cost applications {} (an injected error was absorbed at the boundary)", op.name(), sj.n, sj.n_lower));
+    }
+    Ok(Some(sj))
+}
+
+const PAST_WINDOW: u64 = 24;
+
+fn ks_for(n: u64, full: bool, stride: u64, edge: u64) -> Vec<u64> {
+    let mut v = vec![];
+    for k in 1..=n + PAST_WINDOW {
+        if full || k <= edge || k + edge > n || k % stride == 0 {
+            v.push(k);
+        }
+    }
+    v
+}
+
+pub fn run(ctx: Ctx) -> ! {
+    let root = build_root();
+    if ctx.replay.is_some() {
+        replay(ctx, &root);
+    }
+    let quick = ctx.quick();
+    // (full-sweep depth, strided depth, stride, edge, wall cap)
+    let (full_depth, max_depth, stride, edge, cap_s): (usize, usize, u64, u64, f64) = if quick { (0, 1, 17, 50, 52.0) } else { (1, 2, 53, 20, 1080.0) };
+
+    // ---- states
+    let root_sim = sim_from(&root.snap);
+    let mut seen: BTreeSet<Vec<u8>> = BTreeSet::new();
+    {
+        let mut s = sim_from(&root.snap);
+        seen.insert(semantic_fp(&mut s, &root.w, &root.x));
+    }
+    let mut states: Vec<State> = vec![make_state(&root_sim, vec![])];
+    let mut per_depth = vec![1usize];
+    let mut layer_start = 0;
+    for _d in 1..=max_depth {
+        let new = expand_states(&ctx, &root, &states[layer_start..], &mut seen);
+        // histories inside expand_states are relative to `parents` slice indices: already absolute (history cloned)
+        layer_start = states.len();
+        per_depth.push(new.len());
+        states.extend(new);
+    }
+
+    // ---- subjects
+    let ops = all_ops();
+    let pairs: Vec<(usize, Op)> = (0..states.len()).flat_map(|i| ops.iter().map(move |o| (i, *o))).collect();
+    let prepared = par_map(ctx.threads, &pairs, |(si, op)| prepare_subject(&root, &states, *si, *op));
+    let mut subjects: Vec<Subject> = vec![];
+    for p in prepared {
+        match p {
+            Ok(Some(s)) => subjects.push(s),
+            Ok(None) => {}
+            Err(e) => mc_core::machinery_error(&format!("C02: {e}")),
+        }
+    }
+    let t_prepared = ctx.elapsed_s();
+
+    // ---- plain + abort runs (one each per subject)
+    let shapes: Mutex<BTreeMap<(usize, String), u64>> = Mutex::new(BTreeMap::new()); // (subject, class|shape) -> min k
+    let plain_jobs: Vec<(usize, Mode)> = (0..subjects.len()).flat_map(|i| [(i, Mode::Plain), (i, Mode::Abort)]).collect();
+    par_range(&ctx, plain_jobs.len() as u64, 4, |j, l| {
+        let (i, mode) = plain_jobs[j as usize];
+        let sj = &subjects[i];
+        let st = &states[sj.state];
+        if let Some(v) = run_case(st, sj, mode, l, true) {
+            let tag = if mode == Mode::Plain { "unfaulted" } else { "abort-when-loan-repaid" };
+            l.class(&format!("{tag}:{}", v.class));
+            if mode == Mode::Plain && v.digest != sj.base_digest {
+                l.violation("nondeterministic-unfaulted-run", format!("{}: two un-faulted runs from the same snapshot differ", sj.op.name()), case_json(st, sj, mode));
+            }
+            if mode == Mode::Abort && !v.class.starts_with("abort") && !v.class.starts_with("reject") {
+                // loan never repaid within the run cannot happen for a committing transaction
+                l.info(&format!("abort-config-but-{}", v.class));
+            }
+            if let Some(sh) = v.shape {
+                let mut g = shapes.lock().unwrap();
+                g.entry((i, format!("{}|{sh}", v.class))).or_insert(0);
+            }
+            if i % 7 == 0 {
+                l.sample(|| json!({"history": st.history.iter().map(|o| o.name()).collect::<Vec<_>>(), "op": sj.op.name(), "mode": tag, "outcome": v.class}));
+            }
+        }
+    });
+
+    // ---- fault sweep
+    // jobs ordered by depth so that a wall cap cuts the deepest layer first
+    let mut jobs: Vec<(u32, u32)> = vec![]; // (subject, k)
+    let mut order: Vec<usize> = (0..subjects.len()).collect();
+    order.sort_by_key(|i| (states[subjects[*i].state].depth, *i));
+    let mut jobs_per_depth = vec![0u64; max_depth + 1];
+    for i in order {
+        let d = states[subjects[i].state].depth;
+        for k in ks_for(subjects[i].n, d <= full_depth, stride, edge) {
+            jobs.push((i as u32, k as u32));
+            jobs_per_depth[d] += 1;
+        }
+    }
+    let capped = AtomicBool::new(false);
+    let done_per_depth: Vec<AtomicU64> = (0..=max_depth).map(|_| AtomicU64::new(0)).collect();
+    let absorbed_below_n = AtomicU64::new(0);
+    let failed_commits = AtomicU64::new(0);
+    let rejected = AtomicU64::new(0);
+    par_range(&ctx, jobs.len() as u64, 16, |j, l| {
+        if capped.load(Ordering::Relaxed) {
+            return;
+        }
+        if ctx.elapsed_s() > cap_s {
+            capped.store(true, Ordering::Relaxed);
+            return;
+        }
+        let (i, k) = jobs[j as usize];
+        let (i, k) = (i as usize, k as u64);
+        let sj = &subjects[i];
+        let st = &states[sj.state];
+        let Some(v) = run_case(st, sj, Mode::Fault(k), l, true) else {
+            done_per_depth[st.depth].fetch_add(1, Ordering::Relaxed);
+            return;
+        };
+        done_per_depth[st.depth].fetch_add(1, Ordering::Relaxed);
+        let same = v.digest == sj.base_digest;
+        if k > sj.n {
+            if !same {
+                // the boundary found by bisection was not the end of the hook sequence
+                l.violation("machinery:boundary", format!("{}: k={k} > N={} still differs from the un-faulted receipt", sj.op.name(), sj.n), case_json(st, sj, Mode::Fault(k)));
+            } else {
+                l.class("k-past-last-hook:identical-to-unfaulted");
+            }
+            return;
+        }
+        if same {
+            absorbed_below_n.fetch_add(1, Ordering::Relaxed);
+            l.info("injected-error-without-effect-on-receipt");
+        }
+        if v.class.starts_with("commit-success") {
+            l.info("injected-error-absorbed:commit-success");
+            l.class("faulted:commit-success(error absorbed; outside statement)");
+        } else if v.class.starts_with("commit-failure") {
+            failed_commits.fetch_add(1, Ordering::Relaxed);
+            l.class(&format!("faulted:{}", v.class));
+        } else {
+            rejected.fetch_add(1, Ordering::Relaxed);
+            l.class(&format!("faulted:{}", v.class));
+        }
+        if let Some(sh) = v.shape {
+            let mut g = shapes.lock().unwrap();
+            let e = g.entry((i, format!("{}|{sh}", v.class))).or_insert(k);
+            if k < *e {
+                *e = k;
+            }
+        }
+        if k % 997 == 0 {
+            l.sample(|| json!({"history": st.history.iter().map(|o| o.name()).collect::<Vec<_>>(), "op": sj.op.name(), "k": k, "N": sj.n, "outcome": v.class}));
+        }
+    });
+    let capped = capped.load(Ordering::Relaxed);
+
+    // ---- engine's own checkers on one representative (minimal k) per distinct diff shape of every subject
+    let reps: Vec<((usize, String), u64)> = shapes.into_inner().unwrap().into_iter().collect();
+    let engine_checked = AtomicU64::new(0);
+    let engine_skipped = AtomicU64::new(0);
+    par_range(&ctx, reps.len() as u64, 1, |j, l| {
+        if ctx.elapsed_s() > cap_s + 25.0 {
+            engine_skipped.fetch_add(1, Ordering::Relaxed);
+            return;
+        }
+        let ((i, _shape), k) = &reps[j as usize];
+        let sj = &subjects[*i];
+        let st = &states[sj.state];
+        let mode = if *k == 0 { Mode::Plain } else { Mode::Fault(*k) };
+        l.eval();
+        with_sim(&st.snap, |sim| {
+            if run_mode(sim, sj, mode).is_ok() {
+                engine_checked.fetch_add(1, Ordering::Relaxed);
+                match check_database_quiet(sim, false, false) {
+                    Ok(()) => l.class("engine-checkers-after-failed-commit:ok"),
+                    Err(e) => l.violation("failed-commit:engine-checker", format!("{} {:?}: {e}", sj.op.name(), mode), case_json(st, sj, mode)),
+                }
+            }
+        });
+    });
+
+    // ---- evidence
+    let mut cov = Map::new();
+    let ns: Vec<u64> = subjects.iter().map(|s| s.n).collect();
+    let root_points: BTreeMap<String, u64> = subjects.iter().filter(|s| s.state == 0).map(|s| (s.op.name(), s.n)).collect();
+    cov.insert("states_per_depth".into(), json!(per_depth));
+    cov.insert("subjects".into(), json!(subjects.len()));
+    cov.insert("fault_points_per_transaction_root_state".into(), json!(root_points));
+    cov.insert("fault_points_min".into(), json!(ns.iter().min()));
+    cov.insert("fault_points_max".into(), json!(ns.iter().max()));
+    cov.insert("fault_points_total_over_subjects".into(), json!(ns.iter().sum::<u64>()));
+    cov.insert("full_sweep_up_to_depth".into(), json!(full_depth));
+    cov.insert("strided_sweep_depth".into(), json!(max_depth));
+    cov.insert("stride".into(), json!(stride));
+    cov.insert("edge".into(), json!(edge));
+    cov.insert("faulted_runs_planned_per_depth".into(), json!(jobs_per_depth));
+    cov.insert("faulted_runs_done_per_depth".into(), json!(done_per_depth.iter().map(|a| a.load(Ordering::Relaxed)).collect::<Vec<_>>()));
+    cov.insert("failed_commits_checked".into(), json!(failed_commits.load(Ordering::Relaxed)));
+    cov.insert("rejections_and_aborts_checked".into(), json!(rejected.load(Ordering::Relaxed)));
+    cov.insert("injected_errors_without_effect_below_N".into(), json!(absorbed_below_n.load(Ordering::Relaxed)));
+    cov.insert("distinct_diff_shapes_engine_checked".into(), json!(engine_checked.load(Ordering::Relaxed)));
+    cov.insert("engine_checks_skipped_by_cap".into(), json!(engine_skipped.load(Ordering::Relaxed)));
+    cov.insert("caps_hit".into(), json!(capped));
+    cov.insert("prepare_wall_s".into(), json!(t_prepared));
+    cov.insert("ops".into(), json!(ops.iter().map(|o| o.name()).collect::<Vec<_>>()));
+    if capped {
+        let done: Vec<u64> = done_per_depth.iter().map(|a| a.load(Ordering::Relaxed)).collect();
+        let complete: Vec<usize> = (0..=max_depth).filter(|d| done[*d] == jobs_per_depth[*d]).collect();
+        ctx.note(format!("wall cap {cap_s}s hit; layers fully covered: {complete:?}"));
+    }
+    let nontrivial = failed_commits.load(Ordering::Relaxed) + rejected.load(Ordering::Relaxed);
+    let exhaustive = !capped && engine_skipped.load(Ordering::Relaxed) == 0;
+    ctx.finish(
+        Level::FaultEnumeration,
+        "a case is one execution of (history, transaction, injection point k | abort config | un-faulted); full sweep = every k in 1..=N+24 where N = number of cost-hook positions of that transaction in that state (boundary found by bisection on 'receipt differs from the un-faulted one', re-checked over the window past N, N >= number of execution-cost applications); strided sweep = k<=edge, k>N-edge, k multiple of stride; non-trivial = faulted runs that ended as failed commit, rejection or abort and went through the whole-database diff oracle",
+        nontrivial,
+        exhaustive,
+        cov,
+        &[
+            "NextRound (system transaction, costing disabled) has no cost hook and is not injectable; it is used to reach states only",
+            "test transactions carry no intent-hash nullification, so the replay-protection record reduces to the tracker field / ring rotation",
+            "states reached by failed commits are not expanded (they differ from the parent by fee balances only, which is what is checked on them)",
+            "states with equal balances/supplies/epoch/round/freeze flag are merged at depth 2",
+            "engine full-database checkers run on one representative (smallest k) per distinct changed-substate shape of every subject; the independent resource scan runs on every failed commit",
+            "every k <= N injects an error (determinism of the prefix); an injected error that leaves the receipt identical to the un-faulted one is counted, not assumed absent",
+        ],
+    )
+}
+
+fn replay(ctx: Ctx, root: &Root) -> ! {
+    let case = ctx.read_replay_case().unwrap();
+    let hist: Vec<Op> = case["history"].as_array().map(|a| a.iter().filter_map(|s| s.as_str().and_then(Op::parse)).collect()).unwrap_or_default();
+    let op = case["op"].as_str().and_then(Op::parse).unwrap_or_else(|| mc_core::machinery_error("replay: unknown op"));
+    let k = case["k"].as_u64().unwrap_or(0);
+    let mode = match case["mode"].as_str() {
+        Some("plain") => Mode::Plain,
+        Some("abort") => Mode::Abort,
+        _ => Mode::Fault(k),
+    };
+    let mut sim = sim_from(&root.snap);
+    for h in &hist {
+        if apply_op(&mut sim, &root.w, &root.x, *h).is_none() {
+            mc_core::machinery_error("replay: history step panicked");
+        }
+    }
+    let states = vec![make_state(&sim, hist)];
+    let sj = match prepare_subject(root, &states, 0, op) {
+        Ok(Some(s)) => s,
+        Ok(None) => mc_core::machinery_error("replay: op is not injectable"),
+        Err(e) => mc_core::machinery_error(&format!("replay: {e}")),
+    };
+    let mut l = Local::new();
+    println!("replaying {} {:?} (N = {}, un-faulted: {})", sj.op.name(), mode, sj.n, sj.base_class);
+    if let Some(v) = run_case(&states[0], &sj, mode, &mut l, true) {
+        println!("observed: {} shape={:?} -> oracle satisfied", v.class, v.shape);
+        l.class(&v.class);
+    }
+    for v in &l.violations {
+        println!("observed violation: {} :: {}", v.key, v.what);
+    }
+    ctx.merge(l);
+    ctx.finish(Level::FaultEnumeration, "replay", 1, false, Map::new(), &[])
 }
